@@ -549,6 +549,7 @@ package calendar
 //@     assert((n == nil) == all(0, 30, func(k int) bool { return !dayBefore(l.solar, jqs(l, k)) }))
 //@     assert(implies(n != nil, dayBefore(l.solar, n.solar) && all(0, 30, func(k int) bool { return implies(dayBefore(l.solar, jqs(l, k)), !dayBefore(jqs(l, k), n.solar)) })))
 //@     p := l.GetPrevJieQiByWholeDay(true)
+//@     prevMinimal(l, p.solar)
 //@     assert((p == nil) == all(0, 30, func(k int) bool { return dayBefore(l.solar, jqs(l, k)) }))
 //@     assert(implies(p != nil, !dayBefore(l.solar, p.solar) && all(0, 30, func(k int) bool { return implies(!dayBefore(l.solar, jqs(l, k)), !dayBefore(p.solar, jqs(l, k))) })))
 
@@ -1008,6 +1009,14 @@ package calendar
 //@   ensures all(0, 29, func(k int) bool { return termInForce(l, k) == (prevIdx(l) == k) }) && (!dayBefore(l.solar, jqs(l, 30))) == (prevIdx(l) == 30)
 //@   ensures 1 <= prevIdx(l) && prevIdx(l) <= 30
 
+//@ # the entry at prevIdx is the latest one not after today: no entry that is not after today lies after it
+//@ lemma prevMinimal(l *Lunar, r *Solar) [C03 C13]
+//@   reveal latestNotAfter
+//@   requires l != nil && r != nil && all(0, 30, func(k int) bool { return implies(prevIdx(l) == k, sameSolar(r, jqs(l, k))) })
+//@   ensures all(0, 30, func(k int) bool { return implies(!dayBefore(l.solar, jqs(l, k)), !dayBefore(r, jqs(l, k))) })
+//@   use prevIdxInForce(l)
+//@   split prevIdx(l) in 0..30
+
 //@ func (lunar *Lunar) GetPrevJieQiByWholeDay(wholeDay bool) *JieQi [C13]
 //@   requires wholeDay
 //@   ensures result.name == convertJieQi(JIE_QI_IN_USE[prevIdx(lunar)])
@@ -1016,7 +1025,6 @@ package calendar
 //@           implies(!dayBefore(lunar.solar, jqs(lunar, 30)), sameSolar(result.solar, jqs(lunar, 30)) && result.name == convertJieQi(JIE_QI_IN_USE[30])) &&
 //@           all(0, 30, func(k int) bool { return implies(prevIdx(lunar) == k, sameSolar(result.solar, jqs(lunar, k))) }) &&
 //@           !dayBefore(lunar.solar, result.solar) && inYears(result.solar.year)
-//@   ensures all(0, 30, func(k int) bool { return implies(!dayBefore(lunar.solar, jqs(lunar, k)), !dayBefore(result.solar, jqs(lunar, k))) })
 //@   use prevIdxInForce(lunar)
 
 //@ func (lunar *Lunar) GetHou() string [C13]
